@@ -177,7 +177,8 @@ class SqrtLasso(LinearModel, RegressorMixin):
             fit_intercept=False)
         # build path
         if alphas is None:
-            alpha_max = norm(X.T @ y, ord=np.inf) / (np.sqrt(len(y)) * norm(y))
+            # critical value of ||y - Xw||_2 + alpha ||w||_1 (unnormalized datafit)
+            alpha_max = norm(X.T @ y, ord=np.inf) / norm(y)
             alphas = alpha_max * np.geomspace(1, eps, n_alphas)
         else:
             n_alphas = len(alphas)
